@@ -33,6 +33,9 @@ def gen_chains(out, n):
         jobs = L.complete_jobs(rec)[:10]
         if not jobs:
             continue
+        if len(chains) % 3 == 2:
+            from .c04 import pad_types
+            jobs = pad_types(jobs)
         names = rnd.sample(NAMES, rnd.choice([1, 2, 2, 3]))
         runs = []
         for _ in range(rnd.choice([1, 2, 2, 3])):
